@@ -2,6 +2,7 @@
    Only statements.  Model: coq/sys/Convert.v (skops/cli/_convert.py); the serialiser
    and the audit enter as oracles (k_saved, k_untrusted). *)
 From Skv Require Import PyStr Json Fs FsFacts Convert ConvertFacts.
+From Skv Require CodecDump CodecLoad CodecShareFacts CodecFacts SinkFacts CliCodecFacts.
 
 (* no -o (or -o ""): the archive goes to <cwd>/<stem of the input's last component>.skops *)
 Theorem C17_default_path : forall c,
@@ -31,6 +32,7 @@ Print Assumptions C17_default_path_examples.
 (* read the pickle, serialise, and only then open the output *)
 Theorem C17_order : forall c,
   convert_ops c =
+    if same_file c then [] else
     ReadAll (in_path c) ::
     match k_saved c with
     | Raise _ => []
@@ -44,34 +46,37 @@ Print Assumptions C17_order.
    or altered at any moment *)
 Theorem C17_failure_inert : forall e c x,
   k_saved c = Raise x ->
-  snd (convert_run c) = CExc x
+  (same_file c = false -> snd (convert_run c) = CExc x)
   /\ forall st pre, crash_of (convert_ops c) pre -> apply_ops e st pre = st.
 Proof. exact convert_failure_inert. Qed.
 Print Assumptions C17_failure_inert.
 
-(* FULL STATEMENT (false, see C17_input_clobber_refuted):
-     forall e c st pre, crash_of (convert_ops c) pre ->
-       fget (in_path c) (files (apply_ops e st pre)) = fget (in_path c) (files st).
-   Proved with the guard "the output is another file than the input": *)
-Theorem C17_input_untouched_partial : forall e c,
-  out_path c <> in_path c ->
+(* FULL STATEMENT (D29 repaired in /repo: convert refuses when the output is the input itself):
+   the input file is never altered, at any crash point, whatever the output option *)
+Theorem C17_input_untouched : forall e c,
   forall st pre, crash_of (convert_ops c) pre ->
     fget (in_path c) (files (apply_ops e st pre)) = fget (in_path c) (files st).
 Proof. exact convert_input_untouched. Qed.
-Print Assumptions C17_input_untouched_partial.
+Print Assumptions C17_input_untouched.
 
-(* D27: a pickle file named m.skops in the cwd, no -o: the default output IS the input *)
-Theorem C17_input_clobber_refuted :
+(* the output IS the input (e.g. a pickle file named m.skops in the cwd and no -o): nothing is read, logged or written *)
+Theorem C17_same_file_refused : forall c,
+  same_file c = true -> convert_run c = ([], CExc EValue) /\ convert_ops c = [].
+Proof. exact convert_same_file_refused. Qed.
+Print Assumptions C17_same_file_refused.
+
+(* the former D29 witness *)
+Theorem C17_input_clobber_repaired :
   cfits clobber_cfg clobber_fs = true
   /\ out_path clobber_cfg = in_path clobber_cfg
-  /\ fget (in_path clobber_cfg) (files (apply_ops (mkenv None) clobber_fs (convert_ops clobber_cfg)))
-     <> fget (in_path clobber_cfg) (files clobber_fs).
-Proof. exact convert_input_clobber_refuted. Qed.
-Print Assumptions C17_input_clobber_refuted.
+  /\ convert_run clobber_cfg = ([], CExc EValue)
+  /\ apply_ops (mkenv None) clobber_fs (convert_ops clobber_cfg) = clobber_fs.
+Proof. exact convert_input_clobber_repaired. Qed.
+Print Assumptions C17_input_clobber_repaired.
 
 (* success: the output holds exactly the bytes dumps returned; nothing else changed *)
 Theorem C17_completes : forall e c st b,
-  cfits c st = true -> k_saved c = Ok b -> k_outdir_ok c = true ->
+  cfits c st = true -> same_file c = false -> k_saved c = Ok b -> k_outdir_ok c = true ->
   let fin := apply_ops e st (convert_ops c) in
   snd (convert_run c) = CDone
   /\ errs_of e st (convert_ops c) = [None; None; None; None]
@@ -84,6 +89,7 @@ Print Assumptions C17_completes.
    list is non-empty; it is the single record built from exactly that list *)
 Theorem C17_warning_iff : forall c,
   warnings (fst (convert_run c)) =
+    if same_file c then [] else
     match k_saved c, k_untrusted c with
     | Ok _, _ :: _ => [warn_text c]
     | _, _ => []
@@ -111,7 +117,7 @@ Theorem C17_equiv :
          (untrusted : bytes -> list pstr) (equiv : obj -> obj -> Prop),
   (forall o b, dumps o = Ok b -> exists o', loads b (untrusted b) = Ok o' /\ equiv o' o) ->
   forall e c st o b,
-    cfits c st = true -> k_saved c = dumps o -> dumps o = Ok b -> k_outdir_ok c = true ->
+    cfits c st = true -> same_file c = false -> k_saved c = dumps o -> dumps o = Ok b -> k_outdir_ok c = true ->
     fget (out_path c) (files (apply_ops e st (convert_ops c))) = Some b
     /\ exists o', loads b (untrusted b) = Ok o' /\ equiv o' o.
 Proof. exact convert_equiv. Qed.
@@ -124,3 +130,21 @@ Theorem C17_nonvacuous :
   /\ warnings (fst (convert_run (ex_ccfg None (Ok [9])))) <> [].
 Proof. exact cfits_examples. Qed.
 Print Assumptions C17_nonvacuous.
+
+(* C17_equiv with the oracle premise discharged on the C05 fragment: k_saved is instantiated with the dump model and the
+   zip container (read-back oracle); the output file then unzips to an archive that the load model maps back to the
+   unpickled value v itself *)
+Theorem C17_result_loads_equal_partial :
+  forall (zipc : nat -> nat -> CodecDump.archive -> bytes) (unzip : bytes -> option CodecDump.archive),
+    (forall method level a, unzip (zipc method level a) = Some a) ->
+    forall e c st reg cur (F : CodecLoad.cfacts) (D : CodecDump.denv) base v method level b,
+    cfits c st = true -> same_file c = false -> k_outdir_ok c = true ->
+    CodecDump.dn_cur D = cur -> CodecShareFacts.reg_ok reg cur = true -> CodecShareFacts.facts_sane F = true ->
+    CodecFacts.c05_guard F D base v = true ->
+    k_saved c = SinkFacts.save_model zipc D base v method level -> k_saved c = Ok b ->
+    let fin := apply_ops e st (convert_ops c) in
+    exists a, fget (out_path c) (files fin) = Some b
+              /\ unzip b = Some a
+              /\ CodecLoad.loads_model (CodecLoad.cenv_of reg cur F a) (CodecDump.a_schema a) = Ok v.
+Proof. exact CliCodecFacts.convert_result_loads_equal_partial. Qed.
+Print Assumptions C17_result_loads_equal_partial.
